@@ -9,7 +9,7 @@ SPEC = make("C13", "Properties.C13",
             "(writes, reads, shutdown, abort) or another bridge; windows 1-8, thresholds independent; transport ends at "
             "random points; every bridge poll's result, bytes written to the local side, shutdown flag, frames and wake-ups "
             "are compared with the model. Non-trivial = a script whose bridge relays bytes in at least one direction or "
-            "returns an error; distinct by case hash.", "DESIGN.md §4 C13", per_quick=700, per_thorough=30000)
+            "returns an error; distinct by case hash.", "DESIGN.md §5 C13", per_quick=700, per_thorough=30000)
 
 _base_cell = SPEC.cell.__func__ if hasattr(SPEC.cell, "__func__") else None
 
